@@ -13,6 +13,16 @@ def valid_dt(rng):
     y = rng.randrange(1981, 2037); mo = rng.randrange(1, 13); d = rng.randrange(1, 29); h = rng.randrange(24); mi = rng.randrange(60); s = rng.randrange(30) * 2
     return ((y - 1980) << 9) | (mo << 5) | d, (h << 11) | (mi << 5) | (s >> 1), (y, mo, d, h, mi, s)
 
+def local_epoch(tz, t6):
+    """seconds since the epoch of the wall-clock time t6 in the zone tz (daylight saving decided by the date, as mktime does with tm_isdst = -1)"""
+    import time
+    old = os.environ.get("TZ"); os.environ["TZ"] = tz; time.tzset()
+    try: return int(time.mktime(tuple(t6) + (0, 0, -1)))
+    finally:
+        if old is None: del os.environ["TZ"]
+        else: os.environ["TZ"] = old
+        time.tzset()
+
 def run(res, tier, replay):
     rng = random.Random(vlib.seed() * 141650939 + 17)
     res.rule = ("archive = single cabinet or 2-4 part set (stored/MSZIP/LZX/Quantum), members with attribute bits RDONLY/EXEC/ARCH in all combinations and valid DOS timestamps; "
@@ -121,7 +131,10 @@ def run(res, tier, replay):
                 if r.stdout != b"".join(m.data for m in sel) or r.returncode != 0: bad("-p from %s wrote %d bytes, expected %d (exit %d)" % (os.path.basename(start), len(r.stdout), sum(len(m.data) for m in sel), r.returncode), detail, "c17:pipe")
                 # extract
                 um = rng.choice([0o022, 0o027, 0o077]); dest = os.path.join(work, "d%d" % nruns)
-                r = subprocess.run("cd %s && umask %o && exec %s -q %s -d %s %s" % (work, um, exe, " ".join("'%s'" % x for x in fopt), dest + rng.choice(["", "/"]), start), shell=True, capture_output=True, env=env, timeout=120); nruns += 1
+                # every other extraction in a time zone with daylight saving (POSIX rule string: no zone database needed): the stored wall-clock time
+                # is local time, summer or winter as the date says
+                tzx = "CET-1CEST,M3.5.0,M10.5.0/3" if (i + len(fopt)) % 2 == 0 else "UTC"
+                r = subprocess.run("cd %s && umask %o && exec %s -q %s -d %s %s" % (work, um, exe, " ".join("'%s'" % x for x in fopt), dest + rng.choice(["", "/"]), start), shell=True, capture_output=True, env=dict(env, TZ=tzx), timeout=120); nruns += 1
                 created = sorted(os.listdir(dest)) if os.path.isdir(dest) else []
                 if created != sorted(m.name.decode() for m in sel) or r.returncode != 0: bad("extract from %s created %s, expected %s (exit %d)" % (os.path.basename(start), created[:4], sorted(m.name.decode() for m in sel)[:4], r.returncode), detail, "c17:extract-set")
                 else:
@@ -131,6 +144,9 @@ def run(res, tier, replay):
                         fp = os.path.join(dest, m.name.decode()); st = os.stat(fp)
                         pb, s, mi, h, d, mon0, y1900 = [int(x) for x in ml.split()]
                         mt = calendar.timegm((y1900 + 1900, mon0 + 1, d, h, mi, s))
+                        if tzx != "UTC":
+                            if mon0 + 1 in (3, 10) and d >= 25 and calendar.weekday(y1900 + 1900, mon0 + 1, d) == 6: continue      # the day the clocks change: an hour that does not exist / exists twice
+                            mt = local_epoch(tzx, (y1900 + 1900, mon0 + 1, d, h, mi, s))
                         if open(fp, "rb").read() != m.data: bad("extracted %s differs from the member's bytes" % m.name, detail, "c17:content"); break
                         if (st.st_mode & 0o777) != pb: bad("mode of %s is %o, expected %o (attribs %#x, umask %o)" % (m.name, st.st_mode & 0o777, pb, m.attribs, um), detail, "c17:mode"); break
                         if int(st.st_mtime) != mt: bad("mtime of %s is %d, expected %d" % (m.name, int(st.st_mtime), mt), detail, "c17:mtime"); break
